@@ -99,6 +99,22 @@ def check(case):
                 break
             total += bb.upper_bound
             n_edits += 1
+    # view 4: the annotated result of a diff is itself a tree equal to the first document; diffed again (against the second
+    # document, and against a fresh copy of the first) its total must be that comparison's cost, not a sum over both diffs,
+    # and the first result must still report its own total
+    with guard('diff of a diff result'):
+        d1 = gen.build(case, 'a').diff(gen.build(case, 'b'))
+        ec1 = d1.edited_cost()
+        ec_b = d1.diff(gen.build(case, 'b')).edited_cost()
+        ec1_after = d1.edited_cost()
+        ec_a = gen.build(case, 'a').diff(gen.build(case, 'b')).diff(gen.build(case, 'a')).edited_cost()
+    if ec1 == ec:
+        if ec_b != ec:
+            out.fail('views-disagree:rediff', f"a.diff(b).edited_cost() is {ec}, a.diff(b).diff(b).edited_cost() is {ec_b}")
+        elif ec1_after != ec1:
+            out.fail('views-disagree:rediff', f"a.diff(b).edited_cost() was {ec1} and reads {ec1_after} after that result was diffed again")
+        elif ec_a != 0:
+            out.fail('views-disagree:rediff', f"a.diff(b).diff(a).edited_cost() is {ec_a}, the cost of comparing a with itself is 0")
     out.info = {'top': top, 'edited_cost': ec, 'flat_sum': total, 'flat_edits': n_edits, 'kinds': dict(kinds)}
     if top is not None:
         if ec != top:
